@@ -401,11 +401,15 @@ func (c *ctx) genStructObject(depth int, id, force string) *Shape {
 	strT := func() *Shape { t := &Shape{Kind: KString}; t.Min, t.Max = genSizeBounds(r, false); return t }
 	fltT := func() *Shape { t := &Shape{Kind: KFloat}; t.FMin, t.FMax = genFloatBounds(r, false); return t }
 	p1 := func(structName string) *Shape {
-		return &Shape{Kind: KObject, ID: c.nextID("P1o"), Struct: structName, Props: []*Prop{
+		o := &Shape{Kind: KObject, ID: c.nextID("P1o"), Struct: structName, Props: []*Prop{
 			{Name: "a", T: intT(), Required: r.Bool()}, {Name: "b", T: strT()}, {Name: "c", T: fltT()}, {Name: "d", T: &Shape{Kind: KBool}}}}
+		fixValueFields(o)
+		return o
 	}
 	p5 := func(structName string) *Shape {
-		return &Shape{Kind: KObject, ID: c.nextID("P5o"), Struct: structName, Props: []*Prop{{Name: "y", T: strT(), Required: r.Bool()}}}
+		o := &Shape{Kind: KObject, ID: c.nextID("P5o"), Struct: structName, Props: []*Prop{{Name: "y", T: strT(), Required: r.Bool()}}}
+		fixValueFields(o)
+		return o
 	}
 	switch name {
 	case "P1", "*P1":
@@ -419,6 +423,8 @@ func (c *ctx) genStructObject(depth int, id, force string) *Shape {
 		s.Props = []*Prop{{Name: "inner", T: p1("P1")}, {Name: "pinner", T: p1(wk.Pick(r, []string{"P1", "*P1"}))}, {Name: "n", T: intT()}}
 	case "P4":
 		s.Props = []*Prop{{Name: "kind", T: &Shape{Kind: KString}}, {Name: "x", T: intT()}}
+	case "P4b":
+		s.Props = []*Prop{{Name: "kind", T: &Shape{Kind: KString}}, {Name: "z", T: strT()}}
 	case "P5", "*P5":
 		s.Props = p5(name).Props
 	case "P6":
@@ -430,7 +436,7 @@ func (c *ctx) genStructObject(depth int, id, force string) *Shape {
 		if c.cfg.OneOf && r.Chance(70) {
 			if r.Bool() {
 				choice = &Shape{Kind: KOneOfStr, Disc: "kind", Inlined: true, Members: []*Member{
-					{KeyS: "first", T: c.genStructObject(depth+1, c.nextID("P4o"), "P4")}, {KeyS: "second", T: c.genStructObject(depth+1, c.nextID("P4o"), "P4")}}}
+					{KeyS: "first", T: c.genStructObject(depth+1, c.nextID("P4o"), "P4")}, {KeyS: "second", T: c.genStructObject(depth+1, c.nextID("P4o"), "P4b")}}}
 			} else {
 				choice = &Shape{Kind: KOneOfStr, Disc: "_type", Inlined: false, Members: []*Member{
 					{KeyS: "five", T: p5("P5")}, {KeyS: "one", T: p1("P1")}}}
@@ -452,6 +458,29 @@ func (c *ctx) genStructObject(depth int, id, force string) *Shape {
 		s.Props = []*Prop{{Name: "FieldByName", T: intT()}, {Name: "other", T: strT()}}
 	}
 	c.decorateStruct(s, nil)
+	// presence rules among the properties a struct can leave unset (pointer fields, treat-empty-as-default)
+	if c.cfg.Presence {
+		var absentable []*Prop
+		for _, p := range s.Props {
+			if pointerFields[s.Struct][p.Name] || p.EmptyDef {
+				absentable = append(absentable, p)
+			}
+		}
+		if len(absentable) >= 2 && r.Chance(50) {
+			a, b := absentable[r.Intn(len(absentable))], absentable[r.Intn(len(absentable))]
+			if a != b {
+				switch r.Intn(3) {
+				case 0:
+					a.Conflicts = []string{b.Name}
+				case 1:
+					a.ReqIf = []string{b.Name}
+				default:
+					a.ReqIfNot = []string{b.Name}
+				}
+			}
+		}
+	}
+	fixValueFields(s)
 	if c.cfg.TypedEnum == false {
 		for _, p := range s.Props {
 			if p.T.Kind == KTypedStrEnum {
@@ -553,7 +582,9 @@ func (c *ctx) genScope(depth int, top bool) *Shape {
 func (c *ctx) decorateStruct(o *Shape, env *Env) {
 	r := c.r
 	for _, p := range o.Props {
-		if c.cfg.Defaults && r.Chance(20) && p.T.Kind != KOneOfStr && p.T.Kind != KOneOfInt {
+		// treat-empty-as-default identifies the zero value with absence; combined with a default that is
+		// not the zero value the identification has no consistent reading, so the two are not combined
+		if c.cfg.Defaults && !p.EmptyDef && r.Chance(20) && p.T.Kind != KOneOfStr && p.T.Kind != KOneOfInt {
 			if raw, ok := ValidRaw(r, p.T, env, 0); ok {
 				p.Default = jsonText(jsonable(raw))
 			}
@@ -578,14 +609,71 @@ func breakCycles(scope *Shape) {
 func GenScope(r *wk.Rand, cfg Cfg) *Shape {
 	n := 0
 	c := &ctx{cfg: cfg, r: r, counter: &n}
-	return c.genScope(0, true)
+	s := c.genScope(0, true)
+	fixOneOfAmbiguity(s, &Env{})
+	return s
 }
 
 // GenType generates a stand-alone type (scalar, container, object, one-of, scope).
 func GenType(r *wk.Rand, cfg Cfg) *Shape {
 	n := 0
 	c := &ctx{cfg: cfg, r: r, counter: &n}
-	return c.genType(0)
+	s := c.genType(0)
+	fixOneOfAmbiguity(s, &Env{})
+	return s
+}
+
+// WalkEnv visits every node with the environment that resolves its references.
+func WalkEnv(s *Shape, env *Env, f func(*Shape, *Env)) {
+	if s == nil {
+		return
+	}
+	f(s, env)
+	switch s.Kind {
+	case KList:
+		WalkEnv(s.Items, env, f)
+	case KMap:
+		WalkEnv(s.Keys, env, f)
+		WalkEnv(s.Vals, env, f)
+	case KObject:
+		for _, p := range s.Props {
+			WalkEnv(p.T, env, f)
+		}
+	case KOneOfStr, KOneOfInt:
+		for _, m := range s.Members {
+			WalkEnv(m.T, env, f)
+		}
+	case KScope:
+		inner := env.Push(s)
+		for _, o := range s.Objects {
+			WalkEnv(o, inner, f)
+		}
+	}
+}
+
+// fixOneOfAmbiguity: when serializing a struct value a one-of finds the member by its Go type, so two
+// members with the same Go struct type cannot be told apart (the SDK picks whichever it iterates first).
+// Such one-ofs are mis-built; the later member is dropped.
+func fixOneOfAmbiguity(root *Shape, env *Env) {
+	WalkEnv(root, env, func(s *Shape, e *Env) {
+		if s.Kind != KOneOfStr && s.Kind != KOneOfInt {
+			return
+		}
+		seen := map[string]bool{}
+		var kept []*Member
+		for _, m := range s.Members {
+			o := derefObject(m.T, e)
+			if o != nil && o.Struct != "" {
+				key := o.Struct
+				if seen[key] {
+					continue
+				}
+				seen[key] = true
+			}
+			kept = append(kept, m)
+		}
+		s.Members = kept
+	})
 }
 
 // GenScalarOrContainer generates scalars / lists / maps / any only (C02).
@@ -618,5 +706,73 @@ func GenObjectStandalone(r *wk.Rand, cfg Cfg) *Shape {
 	n := 0
 	cfg.Refs = false
 	c := &ctx{cfg: cfg, r: r, counter: &n}
-	return c.genObject(1, "Root", cfg.Structs && r.Chance(40))
+	o := c.genObject(1, "Root", cfg.Structs && r.Chance(40))
+	fixOneOfAmbiguity(o, &Env{})
+	return o
+}
+
+// pointerFields lists, per pool struct, the properties mapped to pointer fields (which can be absent).
+var pointerFields = map[string]map[string]bool{
+	"P1": {"c": true, "d": true}, "*P1": {"c": true, "d": true}, "P3": {"pinner": true, "n": true},
+	"P4b": {"z": true}, "P7": {"opt": true, "choice": true}, "P2": {"extra": true},
+}
+
+// admitsZero: does the type accept the Go zero value of its native type?
+func admitsZero(t *Shape) bool {
+	switch t.Kind {
+	case KInt:
+		return (t.Min == nil || *t.Min <= 0) && (t.Max == nil || *t.Max >= 0)
+	case KFloat:
+		return (t.FMin == nil || *t.FMin <= 0) && (t.FMax == nil || *t.FMax >= 0)
+	case KString:
+		return (t.Min == nil || *t.Min <= 0) && (t.Max == nil || *t.Max >= 0) && (t.Pattern == "" || compiled(t.Pattern).MatchString(""))
+	case KBool, KAny, KPattern:
+		return true
+	case KList, KMap:
+		return (t.Min == nil || *t.Min <= 0) && (t.Max == nil || *t.Max >= 0)
+	case KIntEnum:
+		for _, v := range t.IntVals {
+			if v == 0 {
+				return true
+			}
+		}
+		return false
+	case KStrEnum, KTypedStrEnum:
+		for _, v := range t.StrVals {
+			if v == "" {
+				return true
+			}
+		}
+		return false
+	case KObject:
+		if t.Struct == "" {
+			return false
+		}
+		for _, p := range t.Props {
+			if pointerFields[t.Struct][p.Name] || p.EmptyDef {
+				continue
+			}
+			if p.Required || !admitsZero(p.T) {
+				return false
+			}
+		}
+		return true
+	}
+	return false
+}
+
+// fixValueFields: a Go struct cannot represent the absence of a property that is mapped to a non-pointer
+// field. Unless the property is marked treat-empty-as-default or its type admits the zero value, it is made
+// required - anything else is a mis-mapped struct (the SDK documents TreatEmptyAsDefaultValue for that
+// case), not a schema the round-trip property speaks about.
+func fixValueFields(s *Shape) {
+	for _, p := range s.Props {
+		if pointerFields[s.Struct][p.Name] || p.EmptyDef {
+			continue
+		}
+		if !admitsZero(p.T) {
+			p.Required = true
+			p.ReqIf, p.ReqIfNot = nil, nil
+		}
+	}
 }
